@@ -44,8 +44,9 @@ def session(text: str, allow: bool = False):
     """parse, then evaluate every rendering; -> (parse outcome, [render outcomes], where)"""
     from pydbml import PyDBML
     from . import project as pj
-    signal.signal(signal.SIGALRM, _alarm)
-    signal.alarm(10)
+    # the watchdog counts the CPU time of this process (ITIMER_VIRTUAL), so a loaded machine cannot fake a hang
+    signal.signal(signal.SIGVTALRM, _alarm)
+    signal.setitimer(signal.ITIMER_VIRTUAL, 15)
     try:
         try:
             db = PyDBML(text, allow_properties=allow)
@@ -90,7 +91,7 @@ def session(text: str, allow: bool = False):
                     where = where or '%s.%s at %s' % (type(o).__name__, kind, _where(ex))
         return 'db', renders, where
     finally:
-        signal.alarm(0)
+        signal.setitimer(signal.ITIMER_VIRTUAL, 0)
 
 
 def _exec_chunk(items):
@@ -186,7 +187,7 @@ def main(argv: List[str]) -> int:
                 'returns, every rendering of the database and each element; distinct by text; non-trivial = the text is not empty')
     rep.assumptions = ['"any input text whatsoever" is covered as far as the alphabet, the mutation operators and the bounds reach; the '
                        'specification contributes the alphabet and the outcome automaton and cannot predict accept/reject of a soup',
-                       'a case that does not finish within 10 s is reported as non-termination']
+                       'a case that uses more than 15 s of CPU time is reported as non-termination']
     quick = core.tier() == 'quick'
     cfg = open(tlc.SPEC_DIR + '/MC_Soups.cfg').read().replace('MaxLen = 2', 'MaxLen = 3')
     res = tlc.require_ok(tlc.run('MC_Soups', cfg_text=cfg, workers=core.NCPU, timeout=3000, heap='8g'), 'MC_Soups')
